@@ -36,6 +36,7 @@ theorem InvBm.step {r r' : BmRepr} {hs : List Hint} {h : Hint}
     obtain ⟨b, _, rfl⟩ := hp
     simp at hn
     simp [packsOf, inv n hn]
+  | rust => simp [bmParseStep] at hp
 
 theorem InvBm.parseFrom {l : List Hint} : ∀ {r r' : BmRepr} {hs : List Hint},
     InvBm r hs → bmParseFrom r l = some r' → InvBm r' (hs ++ l) := by
@@ -182,6 +183,7 @@ theorem head_of_packsAgree {l : List Nat} {n : Nat} (h : packsAgree l = true) (h
 theorem rustcRepr_packsAgree {hs : List Hint} {rr : RRepr} (h : rustcRepr hs = some rr) :
     packsAgree (packsOf hs) = true := by
   unfold rustcRepr at h
+  split at h; · cases h
   split at h; · cases h
   split at h; · cases h
   split at h; · cases h
